@@ -26,6 +26,8 @@ MANIFEST = {
  "technique": "Lean 4 proof over executable model + correspondence (unit include + whole-library syscall interposition) + monitors",
 }
 
+ALT = {}                   # NDEBUG harness, set by run()
+MAX_SIGS = 3              # stop collecting after this many distinct violation signatures
 KINDS = ["pipe", "pipe", "tcp", "tcp", "ipc", "ipc", "fifo", "tcpconn", "tcpfail"]
 HARD = [32, 104, 110, 5]          # EPIPE ECONNRESET ETIMEDOUT EIO
 SIG_SHUT_ORDER = "shutdown-cb-before-earlier-write-cb"
@@ -388,6 +390,15 @@ def monitor(case, out):
         for s in subs:
             if s["kind"] == "w" and s["cbstatus"] is None:
                 raise Bad("cb-missing", f"request {s['id']} never got its callback although the handle was closed")
+    td = next((l for l in out if l.startswith("#teardown ")), None)
+    if td:
+        kv = dict(x.split("=") for x in td.split()[1:])
+        if int(kv["owed_w"]) > 0:
+            raise Bad("write-cb-never-delivered", f"every handle was closed and the loop run, but {kv['owed_w']} accepted write request(s) never got a callback ({kv['reqs']} requests still active, loop alive={kv['alive']})")
+        if int(kv["owed_s"]) > 0:
+            raise Bad("shutdown-cb-never-delivered", "every handle was closed and the loop run, but the accepted shutdown request never got its callback")
+        if int(kv["alive"]) or int(kv["reqs"]):
+            raise Bad("loop-never-idle-after-close", f"all handles closed and no callback owed, but the loop stays alive ({kv['reqs']} active requests)")
     nfds = next((int(l.split()[1]) for l in out if l.startswith("#fds ")), 0)
     nh = st.get("handle_subs", 0)
     if nfds > nh:
@@ -423,8 +434,15 @@ def monitor(case, out):
 
 
 # ----------------------------------------------------------------------------- running
-def run_impl(ctx, exe, case):
-    rc, out, err = ctx.run(exe, text="\n".join(case) + "\n", timeout=60, env={"ASAN_OPTIONS": "detect_leaks=0:exitcode=99"})
+CASE_TIMEOUT = 3          # seconds; a correct run of one program takes milliseconds
+
+
+def run_impl(ctx, exe, case, timeout=CASE_TIMEOUT):
+    env = {"ASAN_OPTIONS": "detect_leaks=0:exitcode=99"}
+    rc, out, err = ctx.run(exe, text="\n".join(case) + "\n", timeout=timeout, env=env)
+    if rc == -999 and timeout == CASE_TIMEOUT:
+        # confirm a hang once, alone (the machine may just have been busy)
+        rc, out, err = ctx.run(exe, text="\n".join(case) + "\n", timeout=4 * CASE_TIMEOUT, env=env)
     return rc, out.splitlines(), err
 
 
@@ -436,6 +454,8 @@ def model_input(case, iout):
 def check_case(ctx, exe, case, do_model=True):
     """returns (monitor exception or None, impl lines)"""
     rc, il, err = run_impl(ctx, exe, case)
+    if rc == -999:
+        return Bad("harness-hang", "the program did not finish within the per-case timeout (libuv call or loop iteration never returns)"), il
     if rc not in (0, 3):
         return Bad("harness-crash", f"harness exited {rc}: {err[-600:]}"), il
     try:
@@ -447,10 +467,12 @@ def check_case(ctx, exe, case, do_model=True):
     return info, il
 
 
-def shrink(ctx, exe, case, sig):
+def shrink(ctx, exe, case, sig, budget=30):
+    """greedy line removal keeping the same signature, within a time budget"""
     cur = list(case)
     i = 1
-    while i < len(cur) - 1:
+    t_end = time.time() + budget
+    while i < len(cur) - 1 and time.time() < t_end:
         cand = cur[:i] + cur[i + 1:]
         r, _ = check_case(ctx, exe, cand)
         if isinstance(r, Bad) and r.sig == sig:
@@ -476,14 +498,30 @@ def run_sim(ctx, exe, cases, label):
     ok = True
     for idx, (c, (r, il)) in enumerate(zip(cases, res)):
         ctx.count()
+        if isinstance(r, Bad) and r.sig == "harness-crash" and ALT.get("nd") and exe != ALT["nd"] \
+                and len(ctx.violations) < MAX_SIGS and "crash-explained" not in ALT:
+            # an assert of the debug library fired: ask the NDEBUG build what the property sees
+            r2, _ = check_case(ctx, ALT["nd"], c)
+            if isinstance(r2, Bad) and r2.sig not in ("harness-crash",) and r2.sig not in ctx.known:
+                ALT["crash-explained"] = True
+                ctx.violation(r2.sig, f"C05 ({label}, NDEBUG library): {r2.what}", {"mode": "sim", "ops": c})
         if isinstance(r, Bad):
             if r.sig in ctx.known:
                 ctx.violation(r.sig, r.what, {"mode": "sim", "ops": c})
                 ctx.notes["known_finding_cases"] = ctx.notes.get("known_finding_cases", 0) + 1
             else:
-                small = shrink(ctx, exe, c, r.sig)
-                if ctx.violation(r.sig, f"C05 ({label}): {r.what}", {"mode": "sim", "ops": small}):
+                new = not any(v["sig"] == r.sig for v in ctx.violations)
+                if new and len(ctx.violations) >= MAX_SIGS:
                     ok = False
+                    continue
+                # record first (starts the watchdog clock), shrink afterwards within a budget
+                if ctx.violation(r.sig, f"C05 ({label}): {r.what}", {"mode": "sim", "ops": c}):
+                    ok = False
+                    if new:
+                        small = shrink(ctx, exe, c, r.sig)
+                        for v in ctx.violations:
+                            if v["sig"] == r.sig:
+                                v["replay"] = {"mode": "sim", "ops": small}
                     continue
         iv = [l for l in il if not l.startswith("#")]
         mv = chunks[idx] if idx < len(chunks) else []
@@ -568,6 +606,7 @@ def run(ctx):
     sexe = ctx.harness("c05_sim", ["harness/c05_sim.c"], link_lib=True)
     # same harness against the NDEBUG build of the library: behaviour behind the asserts of stream.c
     sexe_nd = ctx.harness("c05_sim_nd", ["harness/c05_sim.c"], variant="asan-ndebug", link_lib=True)
+    ALT["nd"] = sexe_nd
     if ctx.replay:
         rp = json.loads(Path(ctx.replay).read_text())["replay"]
         if rp["mode"] == "upd" and uexe:
@@ -618,7 +657,11 @@ def run(ctx):
             n += len(cases)
             for c, (r, il) in zip(cases, res):
                 if isinstance(r, Bad) and r.sig not in ctx.known:
-                    ctx.violation(r.sig, f"C05 (search): {r.what}", {"mode": "sim", "ops": shrink(ctx, sexe, c, r.sig)})
+                    ctx.violation(r.sig, f"C05 (search): {r.what}", {"mode": "sim", "ops": c})
+                    small = shrink(ctx, sexe, c, r.sig)
+                    for v in ctx.violations:
+                        if v["sig"] == r.sig:
+                            v["replay"] = {"mode": "sim", "ops": small}
                     break
             if ctx.violations:
                 break
